@@ -83,12 +83,15 @@ def bits_to_frac(x, size):
     return Fraction(d)
 
 
+STRICT_BITS = [True]      # relaxed (nearest double) in concrete replay runs
+
+
 def frac_to_bits(f, size):
     if isinstance(f, NF):
         d = float("nan") if f.kind == "nan" else f.sign * float("inf")
     else:
         d = float(f)
-        if Fraction(d) != f and size == 8:
+        if Fraction(d) != f and size == 8 and STRICT_BITS[0]:
             raise Unsupported("real value %s is not a double; cannot reinterpret as bits" % f)
     if size == 8:
         return struct.unpack("<Q", struct.pack("<d", d))[0]
@@ -141,6 +144,7 @@ class Exec:
 
     # ------------------------------------------------------------ path state
     def _reset_path(self, prefix):
+        STRICT_BITS[0] = self.concrete is None
         self.prefix, self.di, self.trail = prefix, 0, []
         self.pc = []
         self.objs, self.bases = [], []
